@@ -87,14 +87,14 @@ def run(ctx):
         p['name'] = '%s_%d' % (p['name'], i)
     ntlc = len(progs)
     rnd = random.Random(ctx.seed)
-    nrand = 6000 if thorough else 1500
+    nrand = 6000 if thorough else 1000
     for i in range(nrand):
         progs.append(sp.random_program(rnd, rnd.randint(4, 60), 'r%d' % i, variants=True))
     ninv = 1500 if thorough else 320
     for i in range(ninv):
         progs.append(sp.random_program(rnd, rnd.randint(3, 20), 'bad%d' % i,
                                        bad=rnd.choice(['nan', 'str', 'none', 'empty'])))
-    narr = 4000 if thorough else 500
+    narr = 4000 if thorough else 400
     for i in range(narr):
         progs.append(sp.array_sink_program(rnd, 'arr%d' % i))
     names = name_programs()
